@@ -42,13 +42,16 @@ func oracleC04(pre, post snap, author int, cs []content) []violation {
 	add := func(rule, sig, f string, a ...any) { out = append(out, violation{rule, sig, fmt.Sprintf(f, a...)}) }
 	ap := pre.perm(author)
 
-	// signatures of the two repaired defects (classification by input shape; informative only)
+	// signatures of the three repaired defects (classification by input shape; informative only)
 	sigFor := func(x int) string {
 		for _, c := range cs {
 			if c.K == "acc" && c.Acc == x {
 				rq, ok := pre.Req[c.Rec]
-				if ok && (rq.Typ != 1 || pre.perm(x) != pNone) {
+				if ok && rq.Typ != 1 {
 					return "F-acl-accept-remove"
+				}
+				if ok && pre.perm(x) != pNone {
+					return "F-acl-accept-stale-join"
 				}
 			}
 			if c.K == "own" && c.Acc == x && pre.perm(x) == pGuest {
